@@ -4154,11 +4154,11 @@ static void DecodeBcc(Word CondCode) {
             }
         }
 
-        /* only a BSR that aims at its own end (displacement 0 in the 8 bit,
-           2 in the 16 bit form) marks the label behind it: the label behind
+        /* only a BSR that aims at its own end (displacement 0 before, 2 after
+           it was made a 16 bit one) marks the label behind it: the label behind
            some other BSR must not keep this one at 16 bits */
 
-        if ((CodeLen > 0) && IsBSR && ((HVal == 0) || (HVal == 2))) {
+        if ((CodeLen > 0) && IsBSR && ((HVal == 0) || ((HVal == 2) && (CodeLen == 4)))) {
             AfterBSRAddr = EProgCounter() + CodeLen;
         }
     }
